@@ -59,6 +59,11 @@ def main():
 
     if a.shard:
         i, n = (int(x) for x in a.shard.split("/"))
+        try:  # a runaway generator must die as a harness crash (inconclusive), not take the machine down
+            import resource
+            resource.setrlimit(resource.RLIMIT_AS, (8 << 30, 8 << 30))
+        except Exception:  # noqa
+            pass
         from vlib.monitors import Reach
         reach = Reach().start()  # before the package is imported, so import-time code counts
         common.setup_repo()
